@@ -2,7 +2,7 @@ HOOK_COMMITS = []
 ENGINES = [
     {"name": "runner", "path": "vlib/runner.py", "serves_properties": ["C01"], "kind_free_text": "Hypothesis driver: seeded workers, collect-then-shrink per root-cause key, plain-JSON replay, evidence"},
     {"name": "E1 refcodec", "path": "vlib/refcodec.py", "serves_properties": ["C01","C02","C03"], "kind_free_text": "independent RFC 7252 section 3 codec used as differential oracle and by the raw peers"},
-    {"name": "E2 simnet", "path": "vlib/simnet.py", "serves_properties": ["C02", "C03", "C04", "C09", "C10", "C14", "C18"], "kind_free_text": "virtual-clock asyncio loop + simulated datagram network under the real aiocoap stack; scripted raw peers; per-datagram fates"},
+    {"name": "E2 simnet", "path": "vlib/simnet.py", "serves_properties": ["C02", "C03", "C04", "C07", "C09", "C10", "C14", "C18"], "kind_free_text": "virtual-clock asyncio loop + simulated datagram network under the real aiocoap stack; scripted raw peers; per-datagram fates"},
 ]
 ALL = ["C%02d" % i for i in range(1, 21)]
 CHECKS = [
@@ -61,6 +61,14 @@ CHECKS += [
         "technique": "fault enumeration: shutdown injected at every event boundary (+-0.5 ms, midpoints) of generated busy scenarios on a virtual clock; post-shutdown silence / termination oracle",
         "text": "For every scenario (fixed: each activity alone and all together; generated: 1-5 activities) the uninterrupted run yields all instants at which anything happened; the scenario is re-run with shutdown() at each of them. The oracle checks termination of all futures/observations with library errors, handler cancellation, no transmission attempt or loop exception for 400 virtual seconds afterwards, LibraryShutdown for late requests, and an unaffected second context pair. Instants are exhaustive per scenario; scenarios are sampled.",
         "note": "trusted: vlib/simnet.py (a send attempt on the closed fake transport is what the real transport turns into an exception), refcodec",
+    },
+]
+CHECKS += [
+    {
+        "id": "C07", "engine": "E2 simnet + Hypothesis", "level": "exploration",
+        "technique": "property-based testing of notification arrival sequences (values, order, duplicates, virtual arrival times, terminators) in four API modes against a reference RFC 7641 section 3.4 freshness filter",
+        "text": "Generated notification sequences (24-bit boundary values, wrap-around, gaps around 128 s, reordering/duplication through datagram fates, terminators) are fed to the real client; a reference freshness filter over the arrival sequence decides what must be handed to the application, exactly for callbacks and as an in-order subsequence ending in the freshest element for the lossy iterator; terminal signals are counted and typed. Sampled sequences.",
+        "note": "trusted: vlib/simnet.py (aiocoap.protocol.time is the virtual clock), refcodec, the 6-line reference filter (self-tested on boundary values)",
     },
 ]
 claimed = {c["id"] for c in CHECKS}
